@@ -176,6 +176,36 @@ def one_case(ctx, out, spec, typed, path, table, rot):
             out.fail(dict(case, form="copy"), f"filtered() at {list(path)} with {table} raised {r_cp}; specified {spec_sh}", finding=finding)
     if (r_cp, shape(cpj) if cpj is not None else None) != (m2["res"], shape(m2["model"]) if m2["res"] == "ok" else None):
         out.disagree(dict(case, form="copy"), f"filtered(): impl {r_cp} {shape(cpj) if cpj is not None else None}, model {m2['res']} {shape(m2['model'])}")
+    # ---- copy of the children only: node.copy(add_self=False, predicate=) == the filtered copy of the branch's child forest
+    if path and not has_err and next(rot) % 2 == 0:
+        tree3 = adapter.build(spec, pool, typed=typed)
+        ser3 = adapter.Serials()
+        ser3.by_obj[id(tree3.system_root)] = 0
+        ser3.keep.append(tree3.system_root)
+        tj3 = adapter.tree_json(tree3, ser3, pool)
+        start3 = adapter.node_at(tree3, path)
+        try:
+            cp3 = start3.copy(add_self=False, predicate=make_pred(table, ser3))
+            r3 = "ok"
+        except Boom:
+            r3, cp3 = "callback", None
+        except Exception as e:  # noqa
+            r3, cp3 = adapter.err_class(e), None
+        sub = sub_json(tj3, path)
+        m3 = ctx.driver.ask({"op": "flt.copy", "t": sub, "typed": typed, "path": None, "v": table})
+        if "fail" in m3:
+            raise core.MachineryError(f"driver {m3}")
+        c3 = adapter.tree_json(cp3, adapter.Serials(), pool) if cp3 is not None else None
+        out.dist["copy_add_self_false"] += 1
+        spec3 = shape(m3["spec"])
+        if r3 == "ok" and shape(c3) != spec3:
+            st = ctx.driver.ask({"op": "flt.strip", "src": sub, "copy": c3, "v": table})
+            finding = "KF-C08-filtered-duplicates" if st.get("stripped") is not None and shape(st["stripped"]) == spec3 else None
+            out.fail(dict(case, form="copy-children"), f"copy(add_self=False, predicate=) at {list(path)} with {table}: copy {shape(c3)}, specified {spec3}",
+                     impl=shape(c3), spec=spec3, finding=finding)
+        elif r3 != "ok":
+            finding = "KF-C08-filtered-duplicates" if r3 == "unique" and m3["res"] == "unique" else None
+            out.fail(dict(case, form="copy-children"), f"copy(add_self=False, predicate=) at {list(path)} with {table} raised {r3}; specified {spec3}", finding=finding)
     return res
 
 
